@@ -408,6 +408,11 @@ fn linearize_extreme(
             if index == other_index {
                 continue;
             }
+            // an operand hiding a division by zero or by a non-constant is
+            // linearized, so that the division is diagnosed
+            if exps[index].has_unresolved_division() {
+                break;
+            }
             let bounds = operand_bounds[index];
             let other_bounds = operand_bounds[other_index];
             let other_dominates = match kind {
@@ -671,6 +676,9 @@ fn try_normalize_logic_constraint(
         comparison_holds(0.0, comparison, constant),
         comparison_holds(1.0, comparison, constant),
     ) {
+        // a comparison decided whatever the truth value is still has to
+        // diagnose a division by zero or by a non-constant in its operand
+        (true, true) | (false, false) if exp.has_unresolved_division() => None,
         (false, true) => Some(NormalizedLogicConstraint::Assertion {
             exp: exp.clone(),
             requirement: LogicRequirement::MustBeTrue,
